@@ -15,7 +15,7 @@ func c13Cfg() *DeclCfg {
 		{K: KString, W: WSlice}, {K: KInt, W: WSlice}, {K: KString, W: WPtr}, {K: KString, W: WMap, MapKey: KString}, {K: KInt, W: WMap, MapKey: KString}, {K: KString, W: WFunc1}, {W: WFunc0}, {K: KInt, W: WFunc1Err}}
 	return &DeclCfg{
 		MaxDepth: 2, MaxFan: 2, PCmds: 65, Types: types, OptsMin: 2, OptsMax: 4, SubGroupsMax: 2, NestMax: 2,
-		PNamespace: 40, PShortOnly: 15, PLongOnly: 15, PDefault: 20, PBase: 20, PHidden: 5, PNoUnquote: 10, PChoices: 8,
+		PCmdTwin: 20, PNoIni: 12, PDupField: 25, PNamespace: 40, PShortOnly: 15, PLongOnly: 15, PDefault: 20, PBase: 20, PHidden: 5, PNoUnquote: 10, PChoices: 8,
 		PExec: 30, PByTag: 50, PSubOptional: 100, PAliases: 10, PIniName: 35, NonASCII: true,
 		ParserOpts: []flags.Options{0, flags.HelpFlag, flags.PassDoubleDash}, NsDelims: []string{"", ".", "-"},
 	}
@@ -24,30 +24,54 @@ func c13Cfg() *DeclCfg {
 // groupTree lists the options reachable from group g (g and its nested groups), in declaration order.
 func groupTree(g *Grp) []*Opt { return allOptsOf(g) }
 
-// resolveIniName applies the stated priority: ini-name (case-insensitively) > field name > namespaced long name > short name.
+// bestIniMatch applies the stated priority inside one group tree: ini-name (case-insensitively) > field name >
+// namespaced long name > short name; the first declared wins among equals. visibleOnly leaves out no-ini options.
+func bestIniMatch(d *Decl, g *Grp, name string, visibleOnly bool) *Opt {
+	var best *Opt
+	prio := 0
+	for _, o := range groupTree(g) {
+		if visibleOnly && o.NoIni {
+			continue
+		}
+		if o.IniName != "" && strings.EqualFold(o.IniName, name) && prio < 4 {
+			best, prio = o, 4
+		}
+		if o.Field == name && prio < 3 {
+			best, prio = o, 3
+		}
+		if o.Long != "" && d.FullLong(o) == name && prio < 2 {
+			best, prio = o, 2
+		}
+		if o.Short != 0 && string(o.Short) == name && prio < 1 {
+			best, prio = o, 1
+		}
+	}
+	return best
+}
+
+// resolveIniName: the groups a section denotes are consulted in order; a group whose best match is marked no-ini
+// does not answer (entries before any header consult every group of the parser, outermost first).
 func resolveIniName(d *Decl, groups []*Grp, name string) *Opt {
 	for _, g := range groups {
-		var best *Opt
-		prio := 0
-		for _, o := range groupTree(g) {
-			if o.IniName != "" && strings.EqualFold(o.IniName, name) && prio < 4 {
-				best, prio = o, 4
-			}
-			if o.Field == name && prio < 3 {
-				best, prio = o, 3
-			}
-			if o.Long != "" && d.FullLong(o) == name && prio < 2 {
-				best, prio = o, 2
-			}
-			if o.Short != 0 && string(o.Short) == name && prio < 1 {
-				best, prio = o, 1
-			}
-		}
-		if best != nil {
+		if best := bestIniMatch(d, g, name, false); best != nil && !best.NoIni {
 			return best
 		}
 	}
 	return nil
+}
+
+// resolveVisible: the reading in which no-ini options simply do not exist for the reader. The oracle judges
+// only entries on which this reading and the group-by-group one agree.
+func resolveVisible(d *Decl, groups []*Grp, name string) *Opt {
+	return bestIniMatch(d, groups[0], name, true)
+}
+
+func preorderGroups(g *Grp) []*Grp {
+	r := []*Grp{g}
+	for _, s := range g.Subs {
+		r = append(r, preorderGroups(s)...)
+	}
+	return r
 }
 
 func randCase(r *Rand, s string) string {
@@ -98,7 +122,7 @@ func c13Run(c *Ctx) {
 	walk = func(cm *Cmd, path string) {
 		if cm.Parent == nil {
 			// entries before any section header address all of the parser's own groups
-			sects = append(sects, sect{"", []*Grp{cm.G}, cm, false}, sect{"Application Options", []*Grp{cm.G}, cm, false})
+			sects = append(sects, sect{"", preorderGroups(cm.G), cm, false}, sect{"Application Options", []*Grp{cm.G}, cm, false})
 			for _, s := range cm.G.Subs {
 				addGroups(cm, "", s)
 			}
@@ -192,6 +216,22 @@ func c13Run(c *Ctx) {
 		form = "field"
 	}
 	target.NoIni = false
+	// a second entry whose key differs from the first one only in letter case and names another option
+	var twin *Opt
+	twinKey := ""
+	if form == "field" && name == target.Field && r.Chance(1, 3) {
+		var cands []*Opt
+		for _, o := range opts {
+			if o != target && !o.NoIni && o.T.W == WScalar && !o.T.IsFlag() && len(o.NsChain()) == 0 && o.Long != "" && o.IniName == "" {
+				cands = append(cands, o)
+			}
+		}
+		if len(cands) > 0 {
+			twin = cands[r.Intn(len(cands))]
+			twinKey = strings.ToLower(name)
+			twin.Long = twinKey
+		}
+	}
 	resolved := resolveIniName(d, se.groups, name)
 	if resolved == nil {
 		c.Unspec("name does not resolve")
@@ -201,9 +241,20 @@ func c13Run(c *Ctx) {
 		c.Unspec("resolved option is marked no-ini")
 		return
 	}
+	if resolveVisible(d, se.groups, name) != resolved {
+		c.Unspec("a no-ini option competes for the key inside the denoted group")
+		return
+	}
+	if twin != nil && (twin == resolved || resolveIniName(d, se.groups, twinKey) != twin || resolveVisible(d, se.groups, twinKey) != twin) {
+		c.Unspec("case-variant key does not single out the second option")
+		return
+	}
 	// same-priority ties are not generated: make sure the resolution is unique at its priority
 	ties := 0
 	for _, o := range groupTree(se.groups[0]) {
+		if o.NoIni {
+			continue
+		}
 		switch {
 		case resolved.IniName != "" && strings.EqualFold(resolved.IniName, name):
 			if o.IniName != "" && strings.EqualFold(o.IniName, name) {
@@ -262,7 +313,7 @@ func c13Run(c *Ctx) {
 		if alt == "" || alt == "\x00" || alt == name {
 			continue
 		}
-		if resolveIniName(d, se.groups, alt) != resolved {
+		if resolveIniName(d, se.groups, alt) != resolved || resolveVisible(d, se.groups, alt) != resolved || (twin != nil && strings.EqualFold(alt, twinKey)) {
 			continue
 		}
 		cnt := 0
@@ -342,6 +393,16 @@ func c13Run(c *Ctx) {
 		iniLines = append(iniLines, name+" = "+v)
 		cliArgs = append(cliArgs, flagName+"="+v)
 	}
+	if twin != nil {
+		v2 := GenScalarTextSimple(r, twin)
+		if strings.HasPrefix(v2, "\x00") || d.ScopeOf(twin.Cmd).Long[twinKey] != twin {
+			c.Unspec("no transparent value for the case-variant entry")
+			return
+		}
+		at := r.Intn(len(iniLines) + 1)
+		iniLines = append(iniLines[:at], append([]string{twinKey + " = " + v2}, iniLines[at:]...)...)
+		cliArgs = append(cliArgs, "--"+twinKey+"="+v2)
+	}
 	text := ""
 	if secName != "" {
 		text = "[" + secName + "]\n"
@@ -397,6 +458,9 @@ func c13Run(c *Ctx) {
 	cell := fmt.Sprintf("%s/%s/cross%d", mode, form, crossing)
 	if se.name == "" {
 		cell += "/preamble"
+	}
+	if twin != nil {
+		cell += "/case-variant-key"
 	}
 	iniFailed := iniErr != nil || iniPErr != nil
 	if iniFailed != (cliErr != nil) {
